@@ -338,17 +338,18 @@ def data_condition_on_the_full_data_set_aggregates_every_batch_once(S):
     S.assume(Acc(0) == 0)
     probe = S.probe_returns(COND + "._compute_dist")
     Mz = zint(M)
+    ACCV = S.returned_local(COND + ".forward", "loss")  # the accumulator = the local that forward() returns
 
     def make(I_, env, i):
         v = Acc(zint(i))
         if norm == "inf":
             I_.ctx.assume(v >= 0)
-        env.vars["loss"] = Tensor(STensor([Dim([])], lambda idx: v, "real"))
+        env.vars[ACCV] = Tensor(STensor([Dim([])], lambda idx: v, "real"))
         del probe[:]
         del model.calls[:]
 
     def check(I_, env, i, tag):
-        loss = env.vars.get("loss")
+        loss = env.vars.get(ACCV)
         ok = isinstance(loss, Tensor) and loss.val.numel_concrete() == 1
         S.ensure(f"batch-loop/{tag}:loss-is-one-number", ok, kind="inv")
         if not ok:
@@ -375,7 +376,7 @@ def data_condition_on_the_full_data_set_aggregates_every_batch_once(S):
             definition = Acc(zint(i)) == z3.If(want > Acc(prev), want, Acc(prev))
         S.ensure(f"batch-loop/{tag}:accumulator-follows-its-recursive-definition", lv == Acc(zint(i)), [definition] + S.minmax_cross_instances(), kind="inv")
 
-    S.loop(COND + ".forward", 0, LoopSpec(make, check, modifies=["loss"], label="batch-loop"))
+    S.loop(COND + ".forward", 0, LoopSpec(make, check, modifies=[ACCV], label="batch-loop"))
     if rooted:
         # (the mean of the per-batch means of |.|^2 is non-negative: stated, not derived from the sum model)
         S.assume(Acc(Mz) >= 0)
@@ -558,9 +559,10 @@ def hpm_and_hpcm_conditions_aggregate_every_batch_once(S):
     S.assume(Acc(0) == 0)
     probe = S.probe_returns(cls + "._compute_dist")
     Mz = zint(M)
+    ACCV = S.returned_local(cls + ".forward", "loss")  # the accumulator = the local that forward() returns
 
     def make(I_, env, i):
-        env.vars["loss"] = Tensor(STensor([Dim([])], lambda idx: Acc(zint(i)), "real"))
+        env.vars[ACCV] = Tensor(STensor([Dim([])], lambda idx: Acc(zint(i)), "real"))
         del probe[:]
         del model.calls[:]
         if hpcm:
@@ -570,7 +572,7 @@ def hpm_and_hpcm_conditions_aggregate_every_batch_once(S):
             del Rd.calls[:]
 
     def check(I_, env, i, tag):
-        loss = env.vars.get("loss")
+        loss = env.vars.get(ACCV)
         ok = isinstance(loss, Tensor) and loss.val.numel_concrete() == 1
         S.ensure(f"batch-loop/{tag}:loss-is-one-number", ok, kind="inv")
         if not ok:
@@ -613,7 +615,7 @@ def hpm_and_hpcm_conditions_aggregate_every_batch_once(S):
         definition = Acc(zint(i)) == Acc(prev) + want / z3.ToReal(Mz)
         S.ensure(f"batch-loop/{tag}:accumulator-follows-its-recursive-definition", lv == Acc(zint(i)), [definition], kind="inv")
 
-    S.loop(cls + ".forward", 0, LoopSpec(make, check, modifies=["loss"], label="batch-loop"))
+    S.loop(cls + ".forward", 0, LoopSpec(make, check, modifies=[ACCV], label="batch-loop"))
     loss = S.method(cond, "forward")
     lv = zreal(loss.val.at([() for _ in loss.val.shape]))
     S.ensure("loss-is-the-accumulator-after-all-M-batches", lv == Acc(Mz))
